@@ -1196,18 +1196,41 @@ func isValidTagName(name string) bool {
 	return true
 }
 
-// isZeroValue reports whether v is omitted by the 'omitzero' option of a
-// 'json' tag: it is the zero value of its type or, if the type has an
-// IsZero method, that method returns true.
+// isZeroer is implemented by the types with an IsZero method.
+type isZeroer interface {
+	IsZero() bool
+}
+
+var isZeroerType = reflect.TypeOf((*isZeroer)(nil)).Elem()
+
+// isZeroValue reports whether v, the value of a struct field, is omitted by
+// the 'omitzero' option of a 'json' tag. As for encoding/json, the type of
+// the field decides: if it has an IsZero method the method is called, but a
+// nil pointer or interface is zero without calling it, otherwise v is
+// omitted if it is the zero value of the type. The dynamic type of the value
+// of an interface field does not matter.
 func isZeroValue(v reflect.Value) bool {
-	switch v.Kind() {
-	case reflect.Interface, reflect.Pointer:
+	t := v.Type()
+	switch {
+	case t.Kind() == reflect.Interface && t.Implements(isZeroerType):
+		if v.IsNil() || v.Elem().Kind() == reflect.Pointer && v.Elem().IsNil() {
+			return true
+		}
+		return v.Interface().(isZeroer).IsZero()
+	case t.Kind() == reflect.Pointer && t.Implements(isZeroerType):
 		if v.IsNil() {
 			return true
 		}
-	}
-	if z, ok := v.Interface().(interface{ IsZero() bool }); ok {
-		return z.IsZero()
+		return v.Interface().(isZeroer).IsZero()
+	case t.Implements(isZeroerType):
+		return v.Interface().(isZeroer).IsZero()
+	case reflect.PointerTo(t).Implements(isZeroerType):
+		if !v.CanAddr() {
+			tmp := reflect.New(t).Elem()
+			tmp.Set(v)
+			v = tmp
+		}
+		return v.Addr().Interface().(isZeroer).IsZero()
 	}
 	return v.IsZero()
 }
